@@ -336,6 +336,12 @@ class C16:
                     rng.shuffle(items)
                     o[rng.choice(['noise_sd', 'illum_wavelen'])] = \
                         {'dict': items}
+                if 'illum_polarization' in o and rng.random() < 0.25:
+                    # the same vector handed over as a labelled array
+                    pv = list(o['illum_polarization']) + [0.0]
+                    o['illum_polarization'] = {'xda': {
+                        'values': pv, 'dims': ['vector'],
+                        'coords': {'vector': ['x', 'y', 'z']}}}
                 if not o:
                     o = {'medium_index': 1.5}
                 new = b.emit('update_metadata', {'img': img, 'optics': o},
@@ -809,7 +815,9 @@ class C16:
                   'noise_sd'):
             if k in o and o[k] is not None:
                 if k == 'illum_polarization':
-                    want = O.normalized_pol(o[k])
+                    pv = o[k]['xda']['values'] if isinstance(o[k], dict) \
+                        else o[k]
+                    want = O.normalized_pol(pv)
                     gv = ga.get(k)
                     if not O.is_da(gv) or np.max(np.abs(
                             gv['values'] - want)) > 4 * EPS:
